@@ -121,6 +121,13 @@ def mirror(prop, r):
             fails.append("reverse mode differs from conj(J_R^T conj g) (RevExact)")
         if not fwd:
             fails.append("forward mode differs from J_R v or has the wrong structure (FwdExact)")
+    if prop == "C11" and (r["vjp_raised"] or r["jvp_raised"]):
+        fails.append("differentiating through an index expression NumPy accepts raised")
+    if prop == "C12":
+        if r["vjp_raised"]:
+            fails.append("differentiating through an access to a tuple-valued result raised")
+        elif not rev:
+            fails.append("reverse mode differs from J^T g (RevExact)")
     if prop == "C04" and not r["vjp_raised"] and not r["jvp_raised"] and r["vjp_shape"] == r["in_shape"] and r["jvp_shape"] == r["out_shape"]:
         if not (r["adj_checked"] and r["adj_nbad"] == 0):
             fails.append("<g, JVP v> != <VJP g, v> on the basis (Adjoint)")
@@ -455,6 +462,12 @@ def c19_history(verdict, tier, seed):
             verdict.violation(fc, {"reason": "the derivative matrices of this call depend on what was differentiated before it in the same process: "
                                              "%s when the list is run forwards, %s when it is run backwards" % (r_["first"], r_["second"]), "cfg": c})
     return {"states": st + d2, "transitions": tr + g2, "configurations_run_in_both_orders": len(rows), "accepted": len(accepted)}
+
+
+def c12_tuples(tier, seed):
+    """C12 on the tuple-valued results of the library itself (eigh, eig, svd, slogdet return named tuples): every way of reading one
+    component - index, negative index, slice then index, unpacking, iteration - propagates the derivative exactly and never raises"""
+    return run_rules("C12", tier, seed, {"seltuple": (2, 2, ["rr"])}, 400, RULE, ASSUME, write=False)
 
 
 def c10_rules(tier, seed):
